@@ -37,7 +37,7 @@ Domain(kind) ==
            THEN [amount |-> {"zero", "one", "balance", "balance+1", "2^255"},
                  token  |-> {"znn", "qsr", "unknown"},
                  to     |-> {"user2", "user3"}]
-           ELSE [from |-> {"pendingToMe", "pendingToMeZeroAmount", "alreadyReceived", "alreadyReceivedZeroAmount", "unconfirmed", "addressedToOther", "unknown"},
+           ELSE [from |-> {"pendingToMe", "pendingToMeZeroAmount", "alreadyReceived", "alreadyReceivedZeroAmount", "alreadyReceivedDataOnly", "unconfirmed", "addressedToOther", "unknown"},
                  dataOnReceive |-> {"none", "some"}])
 
 Original(kind) ==
